@@ -145,7 +145,7 @@ def format_preserved(F, S):
     for nd in wc.nodes:
         if is_store(nd) or (nd["k"] == "CXXOperatorCallExpr" and nd.get("op") == "="):
             a = nd.get("args") or wc.kids(nd["id"])
-            l = wc.term(a[0])
+            l = c05.resolve(wc.term(a[0]), c05.alias_defs(wc))
             if "waveFormat" in repr(l) and l[0] == "mem":
                 stores.append((nd, l, wc.term(a[1]) if len(a) > 1 else None))
     whole = [x for x in stores if x[1][2] == "waveFormat" and x[2] == wf]
